@@ -344,6 +344,9 @@ func (tc *c10Case) line(lane, mask string, obs []int64) string {
 	for i, o := range tc.script {
 		var set string
 		script[i], set, _ = strings.Cut(o, "^")
+		if script[i][0] == 'r' { // round 7: the body fails while roundTrip auto-reads it = the model's badBody (response + error)
+			script[i] = "b" + script[i][1:]
+		}
 		sets[i] = "-"
 		if set != "" {
 			var ps []string
@@ -628,10 +631,24 @@ func (x *c10Run) RoundTrip(r *http.Request) (*http.Response, error) {
 	if k < len(x.tc.script) {
 		c10SetCookies(hdr, x.tc.script[k])
 	}
+	if o[0] == 'r' {
+		// round 7: the header arrived, the body breaks off while the library auto-reads it
+		// (Response.ToBytes inside Client.roundTrip records the error in resp.Err)
+		return &http.Response{StatusCode: code, Status: strconv.Itoa(code) + " X", Proto: "HTTP/1.1", ProtoMajor: 1, ProtoMinor: 1,
+			Header:        hdr,
+			ContentLength: 64, Body: io.NopCloser(io.MultiReader(strings.NewReader(c10PartialBody), &c10FailReader{&c10Err{"b", ra, nil}})), Request: r}, nil
+	}
 	return &http.Response{StatusCode: code, Status: strconv.Itoa(code) + " X", Proto: "HTTP/1.1", ProtoMajor: 1, ProtoMinor: 1,
 		Header:        hdr,
 		ContentLength: int64(len(content)), Body: io.NopCloser(strings.NewReader(content)), Request: r}, nil
 }
+
+// c10PartialBody is what arrives of a response body that breaks off (script token r<code>).
+const c10PartialBody = "part"
+
+type c10FailReader struct{ err error }
+
+func (f *c10FailReader) Read([]byte) (int, error) { return 0, f.err }
 
 // ---- error kinds x context states (round 5)
 
@@ -1307,13 +1324,16 @@ func (x *c10Run) observeKept(resp *Response) {
 		src = ""
 	}
 	b, rs := "-", "-"
-	if src != "" && (src[0] == 's' || src[0] == 'b' || src[0] == 'L') {
+	if src != "" && (src[0] == 's' || src[0] == 'b' || src[0] == 'r' || src[0] == 'L') {
 		exp := "ok"
 		if x.tc.noBodyObs {
 			exp = ""
 		}
 		if src[0] == 'b' {
 			exp = "bad:" + resp.Header.Get("X-Attempt")
+		}
+		if src[0] == 'r' {
+			exp = c10PartialBody
 		}
 		switch got := string(resp.body); {
 		case x.tc.noBodyObs:
@@ -1324,7 +1344,7 @@ func (x *c10Run) observeKept(resp *Response) {
 		default:
 			b = "?"
 		}
-		if code, _ := strconv.Atoi(src[1:]); src[0] != 'b' && ((code >= 200 && code < 300) || code >= 400) {
+		if code, _ := strconv.Atoi(src[1:]); src[0] != 'b' && src[0] != 'r' && ((code >= 200 && code < 300) || code >= 400) {
 			rs = "0"
 			if (resp.result != nil && resp.SuccessResult() != nil) || (resp.error != nil && resp.ErrorResult() != nil) {
 				rs = "1"
@@ -1549,7 +1569,7 @@ func (x *c10Run) oracle() (ok bool, why string) {
 				// the stub predicates only read status / error presence / attempt number
 				isErr := o[0] != 's'
 				st := 0
-				if o[0] == 's' || o[0] == 'b' {
+				if o[0] == 's' || o[0] == 'b' || o[0] == 'r' {
 					st, _ = strconv.Atoi(o[1:])
 				}
 				n, _ := strconv.Atoi(p[1:])
@@ -1576,11 +1596,14 @@ func (x *c10Run) oracle() (ok bool, why string) {
 	// the result is the last attempt's
 	if last >= 0 && last < len(tc.script) {
 		o := tc.script[last]
-		if (o[0] == 's' || o[0] == 'b' || o[0] == 'L') && x.lastXAtt != last {
+		if (o[0] == 's' || o[0] == 'b' || o[0] == 'r' || o[0] == 'L') && x.lastXAtt != last {
 			return fail(fmt.Sprintf("returned response is from attempt %d, last attempt was %d", x.lastXAtt, last))
 		}
 		if o[0] == 's' && len(tc.after) == 0 && !strings.HasSuffix(x.final, ":-") {
 			return fail("last attempt succeeded but an error was returned: " + x.final)
+		}
+		if o[0] == 'r' && len(tc.after) == 0 && !strings.HasSuffix(x.final, ":"+strconv.Itoa(last)+"/b") {
+			return fail("the body of the last attempt broke off but the error returned is not that attempt's body error: " + x.final)
 		}
 		if (o == "t" || o == "d" || o == "c" || o == "z") && !strings.HasSuffix(x.final, ":"+strconv.Itoa(last)+"/"+map[string]string{"t": "t", "d": "d", "c": "c", "z": "w"}[o]) {
 			// a failing response middleware may replace nothing: resp.Err keeps the round-trip error
@@ -1883,7 +1906,7 @@ func c10Exec(tc *c10Case, dir string) c10Rec {
 
 // ---------------------------------------------------------------------------- generators
 
-var c10Alphabet = []string{"s200", "s503", "t", "c", "z", "e", "b500", "d", "D", "L503", "s404", "b200", "s301", "s429", "L200", "T"}
+var c10Alphabet = []string{"s200", "s503", "t", "c", "z", "e", "b500", "d", "D", "L503", "s404", "b200", "s301", "s429", "L200", "T", "r300", "r200", "r503"}
 
 func c10Simple() *c10Case {
 	return &c10Case{allowGet: true, method: "GET", url: "http://c10.test/p", body: "n"}
@@ -1932,6 +1955,11 @@ func TestVerif_C10_loop(t *testing.T) {
 	// context's own cancellation (c), a response with the context done (L) — the decision must read
 	// the context, never the kind of the error
 	gen([]string{"t", "d", "T", "D", "c", "L503", "s503", "s200"}, verifh.N(2, 3), nil)
+	// round 7: WHERE an attempt fails after the response header arrived — in the decoder (b: the
+	// unmarshal middleware) or already while roundTrip auto-reads the body (r: the body breaks off;
+	// the error lives in resp.Err only until roundTrip hands it out as err) x result state of the
+	// status (2xx / 4xx-5xx: parseResponseBody meets the error again; 3xx: nothing else does)
+	gen([]string{"r300", "r200", "r503", "b500", "s300", "s200", "t"}, verifh.N(2, 3), nil)
 	seen := map[string]bool{}
 	for _, sq := range seqs {
 		key := strings.Join(sq, ",")
@@ -2877,18 +2905,18 @@ func TestVerif_C10_wire(t *testing.T) {
 			tc.conds = []string{"G500"}
 			tc.reqOps = append(tc.reqOps, "ac0")
 			for j := 0; j < fails; j++ {
-				tc.script = append(tc.script, []string{"s503", "s500", "b502"}[r.Intn(3)])
+				tc.script = append(tc.script, []string{"s503", "s500", "b502", "r503"}[r.Intn(4)])
 			}
 		} else {
 			for j := 0; j < fails; j++ {
-				tc.script = append(tc.script, []string{"t", "t", "d", "b500", "z"}[r.Intn(5)])
+				tc.script = append(tc.script, []string{"t", "t", "d", "b500", "z", "r300", "r200"}[r.Intn(7)])
 			}
 		}
 		tc.script = append(tc.script, []string{"s200", "s200", "s404", "t", "T", "s200"}[r.Intn(6)], "c")
 		if r.Intn(5) == 0 {
 			// the origin sets / replaces / expires cookies: the jar's cookies go out with the NEXT attempt
 			for j, o := range tc.script {
-				if (o[0] == 's' || o[0] == 'b') && r.Intn(3) != 0 {
+				if (o[0] == 's' || o[0] == 'b' || o[0] == 'r') && r.Intn(3) != 0 {
 					tc.script[j] = o + "^" + []string{"sid:a" + strconv.Itoa(j), "sid:b" + strconv.Itoa(j) + "+t:1", "t:", "t:2+u:x", "sid:"}[r.Intn(5)]
 					count("jar:set-cookie")
 				}
